@@ -7,13 +7,68 @@ import sys
 from driver.props import c08_pool as P
 
 ID = "C08"
-LEVEL_TEXT = P.POOL_LEVEL_TEXT
+
+# ---- first half: the distances depend only on the multiset of weighted columns (lean/Gv/Props/C08Cols.lean) ----
+COLS_LEAN_MODULES = ["Gv.Props.C08Cols"]
+COLS_THEOREMS = ["Gv.Props.C08Cols." + n for n in [
+    "countMutations_weighted_counts", "countDiffs_weighted_counts", "counters_perm_invariant",
+    "probaNt_weighted_columns", "selectedSites_columnwise", "estimators_homogeneous", "internal_gaps_exactly",
+    "distMatrix_depends_on_weighted_columns", "pair_distance_depends_on_weighted_columns", "initModel_is_initOf",
+    "distMatrix_column_perm", "distMatrix_replicate", "rawdist_replicate_linear",
+    "distMatrix_replicate_eq_integer_weights", "distMatrix_scale_weights", "distMatrix_unit_weights",
+    "distMatrix_function_of_pair_distances", "complement_preserves_classes", "complement_residue_code",
+    "estimators_strand_symmetric", "distMatrix_complement", "distMatrix_reverse_complement",
+    "internal_gaps_reversal_invariant", "distMatrix_reverse_columns", "distMatrix_reverse_complement_all_modes",
+    "revcompRows_is_ReverseComplement", "distMatrix_row_perm", "distance_symmetric",
+    "internal_gaps_not_permutation_invariant", "internal_gaps_not_replication_invariant"]]
+COLS_LEVEL_TEXT = (
+    "FIRST HALF - Lean theorems over the reals (weights real, sums exact) about the Go-mirroring model of "
+    "distance/dna/distance.go (lean/Gv/Model/Dist.lean: countMutations, countDiffs, countDiffsWithGaps, "
+    "countDiffsWithInternalGaps, selectedSites, probaNt, Distance of the 7 models with the closed forms REGENERATED from "
+    "the Go source on every run, DistMatrix assembly), for ALL alignments, models, gamma/alpha, rm-gaps, rm-ambiguous, "
+    "ranges and both variants (unchanged / repaired): every result of the three order-free counters is a weighted count "
+    "'sum of w over the sites picked by an indicator of (code, code, selected)', probaNt is a normalised weighted sum over "
+    "the columns, the estimators only use ratios of counts (proved on the regenerated text) and rawdist is linear; hence "
+    "the MASTER THEOREM distMatrix_depends_on_weighted_columns: DistMatrix is a function of 'column content -> total "
+    "weight of the columns with that content', up to a common factor k != 0 (k = 1 for rawdist). Instances proved at the "
+    "DistMatrix level: column permutation by any index permutation (weights move with their columns), Concat with itself "
+    "k >= 1 times (every model but rawdist; rawdist pair distances are multiplied by k), k copies = integer weight k "
+    "(rawdist included), all weights multiplied by k != 0, explicit unit weights = no weights (every counting mode), "
+    "complementing every residue (every counting mode: the complement keeps IUPAC compatibility, transitions and "
+    "transversions and exchanges A<->G with C<->T and piA<->piT, piC<->piG, under which TN93/F84/F81 as written in the "
+    "source are symmetric), reverse complement (modes 0 and 2 for any real weights; EVERY counting mode, the "
+    "internal-gap one included, for non-negative weights: the internal-gap counter is shown to be a two-sided sum that "
+    "reads the same from both ends - leading and trailing gap runs are ignored alike; tied to the C06 model of "
+    "ReverseComplement), and row permutation (m'[i][j] = m[q i][q j], half-matrix mode, every counting mode: Distance is symmetric over the reals and "
+    "the 2*max substitute only depends on the set of pair distances). The internal-gap mode (rawdist/pdist with "
+    "countgapmut = 1, internal_gaps_exactly) is exempt from permutation/replication, and necessarily so: two DistMatrix "
+    "evaluations of the model over R are machine-checked counterexamples (A-A/AAA: 1 vs AA-/AAA: 0; A-/AA: 0 vs two "
+    "copies: 1). On the implementation the same relations are run as metamorphic pairs (op distpair, tolerance 1e-9). "
+    "SECOND HALF - ")
+COLS_PARTIAL = [
+    "first half: the theorems are over the reals (exact sums); float64 summation order and rounding are not modelled - on "
+    "the implementation the relations are metamorphic pairs with relative tolerance 1e-9",
+    "first half: preconditions of the theorems = preconditions of dna.DistMatrix: rectangular alignment (all rows of one "
+    "length) and, when weights are given, at least one weight per column (weights[i] panics otherwise); complement / "
+    "reverse complement: every residue has an IUPAC code (otherwise DistMatrix returns an error on the original alignment)",
+    "first half: reverse complement / column reversal in the internal-gap mode (countgapmut = 1) is proved for "
+    "non-negative weights only (math.Max of the two trailing sums); with a negative weight it is false in general",
+    "first half: row permutation is proved for the half-matrix mode (no ranges: a range names row positions); over R the "
+    "model's test `d == +Inf` reads `d = 1/0 = 0` (Lean's real division), so a zero distance takes the substitute branch "
+    "of the real-valued assembly - the pair-level theorems and distMatrix_function_of_pair_distances (any interpretation "
+    "of float64) do not depend on it; IEEE special values are C07's FVal theorems",
+    "first half: replication is `Concat` with itself (k copies side by side, no weights); in-place repetition of each "
+    "column is the same multiset of columns and is covered by the master theorem, not stated separately",
+]
+
+LEVEL_TEXT = COLS_LEVEL_TEXT + P.POOL_LEVEL_TEXT
 LEVEL_NOTE = P.POOL_LEVEL_NOTE
-TECHNIQUE = P.POOL_TECHNIQUE
-LEAN_MODULES = list(P.POOL_LEAN_MODULES)
-REQUIRED_THEOREMS = list(P.POOL_THEOREMS)
+TECHNIQUE = ("Lean 4 proof over the reals (weighted-multiset argument on the regenerated estimators and the hand-written "
+             "counters / probaNt / assembly; decide over the 16 IUPAC codes and the 256 residues) + " + P.POOL_TECHNIQUE)
+LEAN_MODULES = list(P.POOL_LEAN_MODULES) + COLS_LEAN_MODULES
+REQUIRED_THEOREMS = list(P.POOL_THEOREMS) + COLS_THEOREMS
 RULE = P.POOL_RULE
-PARTIAL = list(P.POOL_PARTIAL)
+PARTIAL = [p for p in P.POOL_PARTIAL if not p.startswith("first half of C08")] + COLS_PARTIAL
 TRUSTED = list(P.POOL_TRUSTED)
 TIMEOUT = P.TIMEOUT
 FACTS = list(P.POOL_FACTS)
